@@ -1,6 +1,6 @@
 (* C12 — counters, callbacks and the recorded path tell one consistent story.
    Statements only; each is closed by `exact` of a lemma from proofs/. *)
-From Verif Require Import Loop LoopInst LoopProofs LoopProofs2 LoopTop.
+From Verif Require Import Loop LoopInst LoopProofs LoopProofs2 LoopTop Callbacks CallbackProofs.
 
 Section C12.
   Variable It : Type.                          (* iterates: abstract *)
@@ -56,6 +56,34 @@ Example C12_nonvacuous :
           [0; 1; 3 # 2; 7 # 4; 15 # 8; 31 # 16], [8; 4; 2; 1; 1 # 2; 1 # 4]).
 Proof. vm_compute. reflexivity. Qed.
 
+(* the callback registry ("announced to callbacks"): for EVERY sequence of register / unregister / dispatch
+   operations the registry holds each live handle once; a dispatch calls exactly the live handles, each once; a handle
+   stays live (and is called by every later dispatch) until it is unregistered itself, whatever else is registered,
+   unregistered or dispatched in between — in particular one registered after earlier dispatches; an unregistered
+   handle is gone *)
+Theorem C12_registry_invariant : forall ops, cb_inv (fst (cb_run cb_init ops)).
+Proof. intros ops. apply cb_run_inv. exact cb_init_inv. Qed.
+Theorem C12_dispatch_calls_each_once : forall s h, cb_inv s ->
+  match snd (cb_step s CbDispatch) with
+  | OCalled hs => (In h hs <-> In h (cb_handles s)) /\ (In h (cb_handles s) -> count_occ Nat.eq_dec hs h = 1%nat)
+  | _ => False
+  end.
+Proof. exact dispatch_calls_each_once. Qed.
+Theorem C12_registered_stays : forall ops s h, In h (cb_handles s) -> Forall (keeps h) ops ->
+  In h (cb_handles (fst (cb_run s ops))).
+Proof. exact registered_stays. Qed.
+Theorem C12_unregistered_is_gone : forall s h, cb_inv s -> In h (cb_handles s) ->
+  ~ In h (cb_handles (fst (cb_step s (CbUnregister h)))).
+Proof. exact unregistered_is_gone. Qed.
+Example C12_registry_nonvacuous :
+  snd (cb_run cb_init [CbRegister; CbDispatch; CbRegister; CbDispatch; CbUnregister 0%nat; CbDispatch; CbUnregister 0%nat])
+  = [OHandle 0%nat; OCalled [0%nat]; OHandle 1%nat; OCalled [0%nat; 1%nat]; OUnreg true; OCalled [1%nat]; OUnreg false].
+Proof. vm_compute. reflexivity. Qed.
+
 Print Assumptions C12_one_story.
 Print Assumptions C12_final_is_last_accepted.
 Print Assumptions C12_dist_factor.
+Print Assumptions C12_registry_invariant.
+Print Assumptions C12_dispatch_calls_each_once.
+Print Assumptions C12_registered_stays.
+Print Assumptions C12_unregistered_is_gone.
